@@ -870,6 +870,9 @@ for _ty, _bits, _signed in (("i8", 8, True), ("i16", 16, True), ("i32", 32, True
     WELL_KNOWN_INT_CONSTS["core::num::<impl %s>::MIN" % _ty] = -(1 << (_bits - 1)) if _signed else 0
 
 
+CONST_BODIES = [None]      # set by facts.load_db: name -> Body of a `const` item
+
+
 def const_int_eval(body, op, depth=0):
     """evaluate a compile-time integer expression (literals combined with + - * through checked-arithmetic temporaries)"""
     if not isinstance(op, dict) or depth > 12:
@@ -877,7 +880,13 @@ def const_int_eval(body, op, depth=0):
     if op.get("c") == "int":
         return int(op["v"])
     if op.get("c") == "item":
-        return WELL_KNOWN_INT_CONSTS.get(op["def"])
+        v = WELL_KNOWN_INT_CONSTS.get(op["def"])
+        if v is None and CONST_BODIES[0] is not None:
+            # a named constant of the workspace (`const MAX_POSITION: u64 = i64::MAX as u64;`): evaluate its initialiser
+            cb = CONST_BODIES[0](op["def"])
+            if cb is not None and cb is not body and depth < 8:
+                v = const_int_eval(cb, {"p": {"l": 0, "proj": []}}, depth + 1)
+        return v
     p = op_place(op)
     if p is None:
         return None
